@@ -31,7 +31,7 @@ func evalWriteVariants(c *core.Ctx, feed []eval.Value, start, end int64, firstmi
 	return out, nil
 }
 
-func evalWriteSNPs(c *core.Ctx, lines [][]string) (string, error) {
+func evalWriteSNPs(c *core.Ctx, lines [][]string, names ...string) (string, error) {
 	fn := c.LookupFunc("pkg/snps", "writeOutput")
 	if fn == nil {
 		return "", fmt.Errorf("UNRESOLVED snps.writeOutput")
@@ -40,7 +40,11 @@ func evalWriteSNPs(c *core.Ctx, lines [][]string) (string, error) {
 	var feed []eval.Value
 	for i, l := range lines {
 		r := absValue(lt, "l", eval.K(0)).(*eval.StructVal)
-		r.F["queryname"] = eval.S(fmt.Sprintf("q%d", i))
+		name := fmt.Sprintf("q%d", i)
+		if i < len(names) {
+			name = names[i]
+		}
+		r.F["queryname"] = eval.S(name)
 		r.F["idx"] = eval.K(int64(i))
 		es := make([]eval.Value, len(l))
 		for k, s := range l {
@@ -233,6 +237,35 @@ func C13(c *core.Ctx) {
 	}
 	c.Count("feeds_evaluated", n)
 	c.Ob("R1-R5/snps/aggregate-equals-counted-rows", len(bad) == 0, funcPos(c, "pkg/snps", "aggregateWriteOutput"), "%s", first(bad, 4))
+	// records that share a name are still separate sequences: counts and denominator are per record
+	{
+		names := []string{"s1", "s2", "s1", "s3", "s2", "s4"}
+		feed := [][]string{{"A10T"}, {"A10T", "C5T"}, {"A10T"}, {}, {"A10T"}, {}}
+		var badD []string
+		per, err1 := evalWriteSNPs(c, feed, names...)
+		for _, thr := range []float64{0, 0.5, 0.6, 0.7} {
+			agg, err2 := evalAggregateSNPs(c, false, feed, thr, names...)
+			if err1 != nil || err2 != nil {
+				badD = append(badD, fmt.Sprintf("undecided: %v %v", err1, err2))
+				break
+			}
+			lines, err := parseAggregate(agg, "SNP,frequency\n")
+			if err != nil {
+				badD = append(badD, err.Error())
+				continue
+			}
+			want, err := expectedFromRows(per, "query,SNPs\n", thr)
+			if err != nil {
+				badD = append(badD, err.Error())
+				continue
+			}
+			n++
+			if d := compareAggregate(lines, want, posSNP); d != "" {
+				badD = append(badD, fmt.Sprintf("six records, two names used twice, threshold %v: %s", thr, d))
+			}
+		}
+		c.Ob("R2/snps/records-sharing-a-name-are-counted-separately", len(badD) == 0, funcPos(c, "pkg/snps", "aggregateWriteOutput"), "%s", first(badD, 3))
+	}
 	// numeric (not lexicographic) position order
 	if agg, err := evalAggregateSNPs(c, false, [][]string{{"A9C", "A10T", "A100G"}}, 0); err == nil {
 		lines, _ := parseAggregate(agg, "SNP,frequency\n")
